@@ -99,7 +99,10 @@ func gen(o hreg.Opts, w *bufio.Writer) error {
 		}
 		c, err := chain.NewChainOpts(cfg, chain.GenesisOpts{Validators: p.n, Balances: p.balances, Seed: p.seed, Mode: p.gmode})
 		if err != nil {
+			// never silently: the generator must be able to build genesis on the code under test
 			st.Add("chain", "genesis-failed")
+			fmt.Fprintln(w, "reset")
+			fmt.Fprintf(w, "genesisfail x_cfg=%s x_n=%d x_seed=%d\n", p.cfg, p.n, p.seed)
 			continue
 		}
 		c.Policy = chain.PolicyByName(p.policy)
@@ -146,7 +149,19 @@ func gen(o hreg.Opts, w *bufio.Writer) error {
 			interesting = ""
 			step, err := c.NextSlot(nil)
 			if err != nil {
+				// The generator could not extend the chain on this code (a valid block of its own making was
+				// refused, or the context could not name a proposer, ...). Do not stop silently: advance the
+				// state by plain slot processing so that the context after this point is still compared, and
+				// end the chain with a line the two sides answer differently.
 				st.Add("chain", "stopped-early")
+				next := c.Slot() + 1
+				work, wepc := chain.WrapState(c.State), c.Epc.Clone()
+				if perr := common.ProcessSlots(context.Background(), spec, wepc, work, next); perr == nil {
+					if err := emitState("slots", fmt.Sprintf("slots x_to=%d", next), work.BeaconState); err != nil {
+						return err
+					}
+				}
+				fmt.Fprintf(w, "genfail x_pre=%s\n", hx(root))
 				break
 			}
 			boundary := uint64(step.Slot)%spe == 0
@@ -350,6 +365,14 @@ func exec(o hreg.Opts, r *bufio.Scanner, w *bufio.Writer) error {
 				}
 				s.shadow, s.shadowEpc = &beacon.StandardUpgradeableBeaconState{BeaconState: st2}, epc2
 				return "ok"
+			case "genesisfail":
+				return "generator-could-not-build-genesis"
+			case "genfail":
+				// the chain generator failed to extend a chain on the code under test (see gen)
+				if s == nil || len(rest) != 0 || kv["x_pre"] != hx(s.root) {
+					return "bad-op"
+				}
+				return "generator-could-not-extend-chain"
 			case "endreload":
 				if s == nil || len(toks) != 1 {
 					return "bad-op"
